@@ -446,7 +446,7 @@ func runC07(t *Trace, r *Rng, tier string, _ []string) {
 			if lateEdge && r.Chance(15) {
 				ns[d] = 0x7FF0000000000000 + int64(r.Intn(5)) - 2 // around the bit pattern of +Inf
 			}
-			if ns[d] > maxNs-10 {
+			if ns[d] > maxNs-10 || (lateEdge && ns[d] < 0) { // past the last representable instant (or wrapped around int64)
 				ns[d] = maxNs - 10 - int64(r.Intn(1000))
 			}
 			must(batch.Index(fmt.Sprintf("d%03d", d), map[string]interface{}{"t": time.Unix(0, ns[d]).UTC()}))
